@@ -808,3 +808,20 @@ package expr
 //@   loop 2 step* basic.auth.in.authorization.header: kind == BasicAuthKind ==> s.In == "header" && s.Name == "Authorization"
 //@   loop 2 step* explicit.location: (kind == APIKeyKind || kind == JWTKind || kind == OAuth2Kind) && explicit != "" ==> s.Name == explicit && s.In == fkIn(iface(*HTTPEndpointExpr, ep), field)
 //@   loop 2 step* implicit.authorization.header: (kind == APIKeyKind || kind == JWTKind || kind == OAuth2Kind) && field != "" && explicit == "" ==> s.Name == "Authorization" && s.In == "header" && select(select(wireMapped, ep.Headers), "Authorization") == field
+
+// ---- two responses of an endpoint never share a status code (C01) ----------------------------------
+// The generated client switches on the status code and names its constructors after it: two responses with one
+// status give a duplicate case and a duplicate function. Validation must reject that: by the end of the
+// iteration for response i an error has been recorded if another response has the same status code.
+//@ func (*HTTPEndpointExpr).Validate
+//@   params e
+//@   property C01
+//@   locals verr:*eval.ValidationErrors s:*expr.GRPCServiceExpr s#2:*expr.GRPCServiceExpr rt:*expr.ResultTypeExpr ok:bool found:bool r:*expr.HTTPResponseExpr hasTags:bool allTagged:bool successResp:bool r#2:*expr.RouteExpr params:[]string r#3:*expr.RouteExpr p:string found#2:bool p2:string p2#2:string found#3:bool p#2:string i:int r#4:*expr.HTTPResponseExpr j:int r2:*expr.HTTPResponseExpr v:*expr.ValidationExpr preqs:[]string missing:[]string req:string found#4:bool preq:string is:string s#3:string er:*expr.HTTPErrorExpr hasParams:bool hasHeaders:bool hasCookies:bool pMap:*expr.Map body:*expr.AttributeExpr pAttr:string bObj:*expr.Object props:[]string ok#2:bool nat:*expr.NamedAttributeExpr name:string prop:string
+//@   opt inline none
+//@   opt loopframes none
+//@   unknown_calls_preserve fieldsOf(eval.ValidationErrors), HTTPEndpointExpr.Responses, elems(*HTTPResponseExpr), HTTPResponseExpr.StatusCode
+//@   let n0 = prev(8, len(verr.Errors))
+//@   loop 9 invariant scanning: verr != nil && i == rangeidx(8) && 0 <= i && i < len(ranged(8)) && r#4 == ranged(8)[i] && ranged(9) == ranged(8) && len(verr.Errors) >= n0
+//@   loop 9 invariant reported: forall k int :: 0 <= k && k <= rangeidx(9) && k != i && ranged(9)[k].StatusCode == r#4.StatusCode ==> len(verr.Errors) > n0
+//@   let idx = prev(8, rangeidx(8) + 1)
+//@   loop 8 step* same.status.rejected: forall k int :: 0 <= k && k < len(ranged(8)) && k != idx && prev(8, ranged(8)[k].StatusCode) == prev(8, ranged(8)[idx].StatusCode) ==> len(verr.Errors) > n0
